@@ -399,7 +399,12 @@ def check_property(pid, tier, seed):
         "z3_only_on_seq_string_files": sum(1 for _k, r in real if r.ok and getattr(r, "seq_string", False)
                                            and not any(str(c).startswith("cvc5") for c in (getattr(r, "confirmed_by", None) or [r.solver]))),
         "discharged_on_seq_string_files": sum(1 for _k, r in real if r.ok and getattr(r, "seq_string", False)),
-        "vacuity_probe": {"vacuous_unconfirmed": [r.name for _k, r in real if (getattr(r, "info", None) or {}).get("vacuous")][:20]},
+        # hypotheses-only re-run of the prover on (Seq String) files: `unsat` there means the proof is vacuous for that solver --
+        # a genuinely infeasible path the quantifier-free pruner could not cut, or the known z3 defect; counted, reported, and
+        # turned into `unknown` only under PYVC_VACUITY_STRICT=1
+        "vacuity_probe": {"probed": sum(1 for _k, r in real if getattr(r, "vacuity_probe", None) is not None),
+                          "vacuous_uncertified": sum(1 for _k, r in real if r.ok and getattr(r, "vacuous", False)),
+                          "examples": [r.name for _k, r in real if r.ok and getattr(r, "vacuous", False)][:10]},
         "solver_time_s": round(solver_time, 2),
         "guards": {"canaries_and_covers": len(guards), "groups": len(groups), "failed_to_prove_as_required": sum(1 for rs in groups.values() if any(r.ok for r in rs)), "canary_sat": sum(1 for _, r in guards if r.status == "refuted")},
         "runtime_crosscheck": {"label": "bounded", **rt_total},
@@ -414,6 +419,7 @@ def check_property(pid, tier, seed):
     }
     cov_confirmed = sum(1 for _k, r in real if r.ok and len(getattr(r, "confirmed_by", None) or []) >= 2)
     cov_discharged = sum(1 for _k, r in real if r.ok)
+    cov_vacuous = sum(1 for _k, r in real if r.ok and getattr(r, "vacuous", False))
     cov_z3only = sum(1 for _k, r in real if r.ok and getattr(r, "seq_string", False)
                      and not any(str(c).startswith("cvc5") for c in (getattr(r, "confirmed_by", None) or [r.solver])))
     ev = {
@@ -431,7 +437,8 @@ def check_property(pid, tier, seed):
             "configurations are asked and a `sat` from any of them blocks the discharge (verdict disagree = undecided); on files with seq.extract "
             "under a quantifier a z3 `unsat` needs a second opinion; every contract carries canaries that must fail to prove. "
             f"{cov_confirmed} of {cov_discharged} deductive obligations of this run have two or more independent `unsat` answers; the others rest on one solver configuration; "
-            f"{cov_z3only} obligations on files with (Seq String) + quantifiers were closed by z3 configurations only (no cvc5 agreement): they assume z3's sequence solver",
+            f"{cov_z3only} obligations on files with (Seq String) + quantifiers were closed by z3 configurations only (no cvc5 agreement): they assume z3's sequence solver; "
+            f"{cov_vacuous} discharged obligations have hypotheses that the proving solver alone declares unsatisfiable and that no second solver certified (infeasible path or solver defect)",
         ],
         "wall_s": round(time.time() - t0, 2),
         "violations": len(violations),
